@@ -631,3 +631,81 @@ package plenccodec
 //@   safety C14
 //@   ensures[C14,C09] result.Type == 5 && result.LogicalType == 4 && !result.ExplicitPresence && result.Index == 0 && len(result.Name) == 0 && len(result.TypeName) == 0
 //@   ensures[C14] len(result.Elements) == 1 && result.Elements[0].Type == 6 && result.Elements[0].LogicalType == 5 && len(result.Elements[0].Elements) == 2
+
+// ---------------------------------------------------------------------------
+// package initialisation establishes the tag constants (see /verif/spec/core.spec: global ...)
+
+//@ func plenccodec.init
+//@   safety C02 C12 C16
+
+// ---------------------------------------------------------------------------
+// time: Timestamp{seconds = 1, nanos = 2}, zig-zag varints (default) or plain varints (proto compatible)
+
+//@ func plenccodec.TimeCodec.Omit
+//@   safety C02
+//@   assigns nothing
+//@   ensures[C02,C09] result == @time.Time.IsZero(loadtime(ptr))
+
+//@ func plenccodec.TimeCodec.size
+//@   safety C05
+//@   assigns nothing
+//@   ensures[C05,C02] size == 1 + vlen(zz(@time.Time.Unix(loadtime(ptr)))) + 1 + vlen(zz(sext64(int32(@time.Time.Nanosecond(loadtime(ptr))))))
+//@   ensures[C05] 4 <= size && size <= 17                          # so its own length prefix is a single byte
+
+//@ func plenccodec.TimeCodec.append
+//@   safety C02 C11
+//@   assigns nothing
+//@   appends[C02,C05,C06,C11] data single(8) ++ venc(zz(@time.Time.Unix(loadtime(ptr)))) ++ single(16) ++ venc(zz(sext64(int32(@time.Time.Nanosecond(loadtime(ptr))))))
+
+//@ func plenccodec.TimeCodec.Size
+//@   safety C05
+//@   assigns nothing
+//@   ensures[C05] len(tag) == 0 ==> result == @size(c, ptr)
+//@   ensures[C05] len(tag) != 0 ==> result == len(tag) + vlen(uint64(@size(c, ptr))) + @size(c, ptr)
+
+//@ func plenccodec.TimeCodec.Append
+//@   safety C02 C11
+//@   assigns nothing
+//@   appends[C02,C05,C06,C11] data ite(len(tag) != 0, bytes(tag) ++ venc(uint64(@size(c, ptr))), empty()) ++ single(8) ++ venc(zz(@time.Time.Unix(loadtime(ptr)))) ++ single(16) ++ venc(zz(sext64(int32(@time.Time.Nanosecond(loadtime(ptr))))))
+
+//@ func plenccodec.TimeCodec.WireType
+//@   safety C02
+//@   assigns nothing
+//@   ensures[C02,C12] result == 2
+
+//@ func plenccodec.TimeCompatCodec.size
+//@   safety C05 C12
+//@   assigns nothing
+//@   ensures[C05,C12] size == 1 + vlen(uint64(@time.Time.Unix(loadtime(ptr)))) + 1 + vlen(zext64(uint32(int32(@time.Time.Nanosecond(loadtime(ptr))))))
+//@   ensures[C05] 4 <= size && size <= 17
+
+//@ func plenccodec.TimeCompatCodec.append
+//@   safety C12 C11
+//@   assigns nothing
+//@   appends[C12,C05,C06,C11] data single(8) ++ venc(uint64(@time.Time.Unix(loadtime(ptr)))) ++ single(16) ++ venc(zext64(uint32(int32(@time.Time.Nanosecond(loadtime(ptr))))))
+
+//@ func plenccodec.TimeCompatCodec.Size
+//@   safety C05 C12
+//@   assigns nothing
+//@   ensures[C05,C12] len(tag) == 0 ==> result == @size(c, ptr)
+//@   ensures[C05,C12] len(tag) != 0 ==> result == len(tag) + vlen(uint64(@size(c, ptr))) + @size(c, ptr)
+
+//@ func plenccodec.TimeCompatCodec.Append
+//@   safety C12 C11
+//@   assigns nothing
+//@   appends[C12,C05,C06,C11] data ite(len(tag) != 0, bytes(tag) ++ venc(uint64(@size(c, ptr))), empty()) ++ single(8) ++ venc(uint64(@time.Time.Unix(loadtime(ptr)))) ++ single(16) ++ venc(zext64(uint32(int32(@time.Time.Nanosecond(loadtime(ptr))))))
+
+//@ func plenccodec.BQTimestampCodec.Omit
+//@   safety C02
+//@   assigns nothing
+//@   ensures[C02,C09] result == @time.Time.IsZero(loadtime(ptr))
+
+//@ func plenccodec.BQTimestampCodec.Append
+//@   safety C02 C11
+//@   assigns nothing
+//@   appends[C02,C05,C06,C11] data bytes(tag) ++ venc(uint64(@time.Time.UnixMicro(loadtime(ptr))))
+
+//@ func plenccodec.BQTimestampCodec.Size
+//@   safety C05
+//@   assigns nothing
+//@   ensures[C05] result == len(tag) + vlen(uint64(@time.Time.UnixMicro(loadtime(ptr))))       # what Append writes
